@@ -6,7 +6,7 @@ from .. import refunify as R
 from .. import universe as U
 from .. import heap as H
 
-ANCHORS = ['>::unify', 'substitution_set::']
+ANCHORS = ['>::unify']
 
 
 def build_pterm(t):
